@@ -53,6 +53,9 @@ MCInit ==
              (* documented variants together with the default marker (a doc comment is an attribute too) *)
              /\ (vdoc => mark # 0)
              /\ input = MkInput(ptr, base, vals, mark, defaultable, vdoc)
+     (* an explicit value below an earlier one, then implicit ones: they count on from their predecessor *)
+     \/ \E ptr \in Ptrs, base \in {"u8", "i32"}, lo \in {0, 1, 3} :
+          input = MkInput(ptr, base, <<NumInt(7), NumInt(lo), NumNone, NumNone>>, 0, FALSE, FALSE)
      \/ \E ptr \in Ptrs, base \in NonIntBases, nv \in 1..2 :
           input = MkInput(ptr, base, [i \in 1..nv |-> NumNone], 0, FALSE, FALSE)
   /\ InitRest
